@@ -64,6 +64,9 @@ func errorSinks(v ssa.Value) []errSink {
 			if deadBlock(r.Block()) {
 				continue // behind `if false` / the else of `if true`: never executed
 			}
+			if _, isPhi := r.(*ssa.Phi); !isPhi && errGuard(r.Block(), true, func(x ssa.Value) bool { return x == v }) {
+				continue // used where this very value is known to be nil (if err == nil { return err }): no failure is carried
+			}
 			switch x := r.(type) {
 			case *ssa.Return:
 				sinks = append(sinks, errSink{"return", x})
